@@ -386,3 +386,30 @@ def verify_run(model, run, mode, api, file_name, features, result=None):
             raise core.Violation("counters", features + ["mode=" + mode],
                                  "counters %r, model %r of %d data rows" % (counters, [accepted, len(items) - accepted], len(items)))
     return expected_end
+
+
+def verify_validate(model, raised, limit, file_name, features):
+    """cutplace.validate(cid, data, validate_until=limit): raises the first rejection among the first ``limit`` data
+    rows (all rows without limit), else the end-of-data verdict over the rows consumed, else nothing."""
+    from sim import core
+
+    items = model.items()
+    window = items if limit is None else items[:limit]
+    first_error = next((index for index, item in enumerate(window) if item[0] == "err"), None)
+    summary = None if raised is None else lib.error_summary(raised)
+    if first_error is not None:
+        if summary is None:
+            raise core.Violation("validate-missed-rejection", features, "model rejects %r" % (window[first_error],))
+        reason = item_mismatch(window[first_error], ["err", summary], file_name)
+        if reason is not None:
+            raise core.Violation("validate-raised-other-error", features, "%s: model %r, raised %r" % (reason, window[first_error], summary))
+        return
+    expected_end = model.end_error(len(window))
+    if expected_end is None and summary is not None:
+        raise core.Violation("validate-raised-unexpectedly", features + ["class=" + summary["class"]], repr(summary))
+    if expected_end is not None:
+        if summary is None:
+            raise core.Violation("end-check-passed-unexpectedly", features + ["api=validate"],
+                                 "model: check %r fails over the %d rows consumed; validate() returned normally" % (expected_end, len(window)))
+        if not summary["is_data_error"]:
+            raise core.Violation("end-check-error-class", features + ["class=" + summary["class"]], repr(summary))
